@@ -608,8 +608,27 @@ func c12Policy(w *World, r *Report, ef *Effects, exec *ssa.Function) {
 	for _, c := range byPolicy["hook-failed"] {
 		failed = append(failed, c)
 	}
+	sccs := sccOf(exec)
 	for _, c := range byPolicy["hook-succeeded"] {
 		succ = append(succ, c)
+		// the deleter applied in a loop of its own over the hooks that had succeeded (the wrapper that
+		// hid this loop was folded in): going through that loop — which may have nothing to do — counts
+		comp := sccs[c.Block()]
+		if len(comp) > 1 {
+			inComp := map[*ssa.BasicBlock]bool{}
+			for _, b := range comp {
+				inComp[b] = true
+			}
+			if !inComp[wa.Instr.Block()] {
+				for _, b := range comp {
+					for _, p := range b.Preds {
+						if !inComp[p] && len(b.Instrs) > 0 {
+							succ = append(succ, b.Instrs[0])
+						}
+					}
+				}
+			}
+		}
 	}
 	n := 0
 	for _, b := range exec.Blocks {
